@@ -52,11 +52,11 @@ def setup_worker():
 
 @st.composite
 def vector_case(draw, formats, tier, max_sources=None, solid_only=False, allow_groups=True, transforms=True, p_grad=0.4,
-                lib_always=False, place_classes=None, lib_prob=0.6, tolerances=None, kinds=None):
+                lib_always=False, place_classes=None, lib_prob=0.6, tolerances=None, kinds=None, min_sources=1):
     cfg = draw(font_config(formats, transforms=transforms))
     palette = draw(font_palette())
     nmax = max_sources or (6 if tier == "quick" else 10)
-    n = draw(st.integers(1, nmax))
+    n = draw(st.integers(min(min_sources, nmax), nmax))
     lib = draw(shape_library(kinds=kinds)) if lib_always or draw(st.integers(0, 2)) == 0 or n == 1 and draw(st.booleans()) else None
     if tolerances is not None:
         cfg["reuse_tolerance"] = draw(st.sampled_from(tolerances))
